@@ -354,23 +354,29 @@ theorem binary_set_refines (r : Rope) (hr : r.Stored) (bo bi value nb : Int) :
     RefinesBin (binarySet r bo bi value nb) (Spec.binarySet r.bytes bo bi value nb) :=
   binarySet_refines hr bo bi value nb
 
-/-- Full-strength numeric statement for `binary_set` (NOT yet proved): the result denotes the old
-    number with the field replaced. What is proved is `binary_set_refines` (agreement with the
-    flat 128-bit read-modify-write `Spec.setBytes`, hence totality and shape independence) and
-    `binary_set_length_partial`; the bitwise identity `(cur &&& ~field) ||| (v <<< k) =
-    cur - old * 2^k + v * 2^k` on `Nat` is missing. The differential checks it on every run
-    against an independent big-integer oracle in the harness. -/
-def binary_set_value_Statement : Prop :=
-  ∀ (v : List UInt8) (bo bi value nb : Int), Spec.SetDomain v.length bo bi value nb →
-    Spec.beNat (Spec.setBytes v bo.toNat bi.toNat value.toNat nb.toNat) = Spec.setValue v bo bi value nb
+/-- … whose meaning is: same length, and the content read as one big-endian number is the old
+    number with the `nb`-bit field at bit `8*bo + bi` replaced by the value — also for 64-bit fields
+    at bit offsets 1..7 (nine bytes touched: defect F2). -/
+theorem binary_set_value (v : List UInt8) (bo bi value nb : Int)
+    (h : Spec.SetDomain v.length bo bi value nb) :
+    (Spec.setBytes v bo.toNat bi.toNat value.toNat nb.toNat).length = v.length ∧
+    Spec.beNat (Spec.setBytes v bo.toNat bi.toNat value.toNat nb.toNat)
+      = Spec.setValue v bo bi value nb := by
+  obtain ⟨⟨h0, h1, h2, h3, h4, h5⟩, hv0, hv1, _⟩ := h
+  have hwin : 8 * bo.toNat + bi.toNat + nb.toNat ≤ 8 * v.length := by omega
+  constructor
+  · unfold Spec.setBytes
+    simp only [List.length_append, List.length_take, List.length_drop, length_beBytes]
+    omega
+  · rw [beNat_setBytes v bo.toNat bi.toNat value.toNat nb.toNat hwin (by omega) (by omega) (by omega) hv1]
+    unfold Spec.setValue Spec.bitsRight
+    simp only
+    rw [show (8 * bo + bi + nb).toNat = 8 * bo.toNat + bi.toNat + nb.toNat by omega]
 
-/-- the result of `binary_set` has the length of its argument -/
-theorem binary_set_length_partial (v : List UInt8) (bo bi value nb : Nat)
-    (h : 8 * bo + bi + nb ≤ 8 * v.length) (hnb : 1 ≤ nb) :
-    (Spec.setBytes v bo bi value nb).length = v.length := by
-  unfold Spec.setBytes
-  simp only [List.length_append, List.length_take, List.length_drop, length_beBytes]
-  omega
+/-- a concrete member of the domain: a 64-bit field at bit offset 4 of a 9-byte binary -/
+example : Spec.SetDomain 9 0 4 9223372036854775807 64 ∧
+    Spec.setBytes [0, 0, 0, 0, 0, 0, 0, 0, 0] 0 4 9223372036854775807 64
+      = [0x07, 0xff, 0xff, 0xff, 0xff, 0xff, 0xff, 0xff, 0xf0] := by decide
 
 /-! ## Vector family -/
 
@@ -386,6 +392,15 @@ theorem vector_subtract_refines (a b : Rope) (ha : a.Stored) (hb : b.Stored) (w 
 theorem vector_multiply_refines (a b : Rope) (ha : a.Stored) (hb : b.Stored) (w : Int) :
     RefinesOptBin (vectorMultiply a b w) (Spec.elementwise (· * ·) a.bytes b.bytes w) :=
   elementwise_refines _ ha hb w
+
+/-- the encoding used by the elementwise kernels is faithful: decoding the encoded lanes gives the
+    lane values back whenever they fit the width (so `Spec.elementwise` really says "the lanes of the
+    result are the exact lane-wise results") -/
+theorem vector_encode_decode (w : Nat) (hw : w = 4 ∨ w = 8) (zs : List Int)
+    (h : ∀ z ∈ zs, Spec.LaneOK w z) : Spec.lanes w (Spec.encode w zs) = zs := lanes_encode hw zs h
+
+example : Spec.lanes 4 (Spec.encode 4 [-1, 2147483647, -2147483648]) = [-1, 2147483647, -2147483648] := by
+  decide
 
 theorem vector_less_than_refines (a b : Rope) (ha : a.Stored) (hb : b.Stored) (w : Int) :
     RefinesOptBin (vectorLessThan a b w) (Spec.compare (fun x y => decide (x < y)) a.bytes b.bytes w) :=
